@@ -28,8 +28,11 @@ def build_base(n, prog):
     alphabet; multi-qubit: ("CNOT", target) / ("CZ",) / ("CNOT_Heralded", t) /
     ("CZ_Heralded",) / ("SWAP",) / ("CCZ",) / ("CCNOT", t)."""
     c = lw.Circuit(2 * n)
+    wrappers = [g[0] for g, _ in prog if g[0] in WRAPPERS]
     for g, q in prog:
         name, args = g[0], g[1:]
+        if name in WRAPPERS:
+            continue
         if name == "ANC":
             # a single-qubit rotation realised by a heralded 3-mode block whose (vacuum) ancilla
             # ends up BETWEEN the two rails of the qubit
@@ -43,7 +46,25 @@ def build_base(n, prog):
             c.add(qubit.SWAP((2 * q, 2 * q + 1), (2 * q + 2, 2 * q + 3)), 0)
         else:
             c.add(getattr(qubit, name)(*args), 2 * q)
+    for w in wrappers:
+        # a herald placed DIRECTLY on the base circuit (not through an added sub-circuit), at or below qubit modes;
+        # applied last whatever its position in the program, so that "program + basis change" stays well defined
+        k = c.input_modes
+        outer = lw.Circuit(k + 1)
+        if w == "DH0":            # vacuum herald on the lowest mode
+            outer.add(c, 1); outer.herald(0, 0)
+        elif w == "DHph":         # a photon passing straight through on the lowest mode
+            outer.add(c, 1); outer.herald(1, 0)
+        elif w == "DHmid":        # vacuum herald entering on the top mode and leaving between the rails of qubit 0
+            outer.add(c, 0)
+            sw = {k: 1}
+            sw.update({m: m + 1 for m in range(1, k)})
+            outer.mode_swaps(sw); outer.herald(0, k, 1)
+        c = outer
     return c
+
+
+WRAPPERS = ("DH0", "DHph", "DHmid")
 
 
 def program_unitary(n, prog):
@@ -63,6 +84,8 @@ def program_unitary(n, prog):
         elif name == "CCNOT":
             t = args[0] if args else 2
             m = rq.controlled_x(n, tuple(x + q for x in range(3) if x != t), q + t)
+        elif name in WRAPPERS:
+            continue
         elif name in ("ANC", "ANC2"):
             from .ref_circuit import bs_matrix
             m = rq.kron(*[bs_matrix(args[0], "Rx" if name == "ANC" else "H") if k == q else rq.I2 for k in range(n)])
